@@ -76,9 +76,17 @@ pub struct Resp {
     pub data: Vec<u8>,
 }
 
-/// What stands behind the bulk endpoints when the plan is not used (ctlreal): called with
-/// (device index, endpoint, buffer, timeout) -> (code, transferred).
-pub type BulkBackend = Box<dyn FnMut(usize, u8, &mut [u8], u32) -> (c_int, c_int) + Send>;
+/// A handle-level call handed to the backend (when one is installed the plan and the log are not used for
+/// these calls): rust/h_usbctl puts a simulated U3V device behind the endpoints.
+pub enum HCall<'a> {
+    Claim(c_int),
+    Release(c_int),
+    ClearHalt(u8),
+    Control { index: u16 },
+    Bulk { ep: u8, buf: &'a mut [u8], timeout: c_uint },
+}
+/// (device index, call) -> (return code, transferred count)
+pub type Backend = Box<dyn FnMut(usize, HCall) -> (c_int, c_int) + Send>;
 
 pub struct World {
     pub list_code: isize,
@@ -88,7 +96,7 @@ pub struct World {
     pub logging: bool,
     pub log: Vec<i64>,
     pub opened: Vec<usize>, // device index of every libusb_open call that succeeded (probe)
-    pub backend: Option<BulkBackend>,
+    pub backend: Option<Backend>,
 }
 
 pub static WORLD: Mutex<Option<World>> = Mutex::new(None);
@@ -455,6 +463,15 @@ fn pop(w: &mut World) -> Option<Resp> {
     }
 }
 
+
+/// run the installed backend (if any) on a handle-level call
+fn via_backend(d: usize, call: HCall) -> Option<(c_int, c_int)> {
+    let mut b = with(|w| w.backend.take())?;
+    let r = b(d, call);
+    with(|w| w.backend = Some(b));
+    Some(r)
+}
+
 #[no_mangle]
 pub unsafe extern "C" fn libusb_open(dev: *mut c_void, out: *mut *mut c_void) -> c_int {
     let d = dev_index(dev);
@@ -512,6 +529,9 @@ pub unsafe extern "C" fn libusb_set_configuration(handle: *mut c_void, config: c
 #[no_mangle]
 pub unsafe extern "C" fn libusb_claim_interface(handle: *mut c_void, iface: c_int) -> c_int {
     let d = handle_dev(handle);
+    if let Some((code, _)) = via_backend(d, HCall::Claim(iface)) {
+        return code;
+    }
     with(|w| {
         log(w, &[8, d as i64, i64::from(iface)]);
         pop(w).map(|r| r.code).unwrap_or(0)
@@ -520,6 +540,9 @@ pub unsafe extern "C" fn libusb_claim_interface(handle: *mut c_void, iface: c_in
 #[no_mangle]
 pub unsafe extern "C" fn libusb_release_interface(handle: *mut c_void, iface: c_int) -> c_int {
     let d = handle_dev(handle);
+    if let Some((code, _)) = via_backend(d, HCall::Release(iface)) {
+        return code;
+    }
     with(|w| {
         log(w, &[9, d as i64, i64::from(iface)]);
         pop(w).map(|r| r.code).unwrap_or(0)
@@ -528,6 +551,9 @@ pub unsafe extern "C" fn libusb_release_interface(handle: *mut c_void, iface: c_
 #[no_mangle]
 pub unsafe extern "C" fn libusb_clear_halt(handle: *mut c_void, ep: u8) -> c_int {
     let d = handle_dev(handle);
+    if let Some((code, _)) = via_backend(d, HCall::ClearHalt(ep)) {
+        return code;
+    }
     with(|w| {
         log(w, &[10, d as i64, i64::from(ep)]);
         pop(w).map(|r| r.code).unwrap_or(0)
@@ -567,6 +593,9 @@ pub unsafe extern "C" fn libusb_control_transfer(
     timeout: c_uint,
 ) -> c_int {
     let d = handle_dev(handle);
+    if let Some((code, n)) = via_backend(d, HCall::Control { index }) {
+        return if code != 0 { code } else { n };
+    }
     with(|w| {
         log(
             w,
@@ -599,13 +628,12 @@ pub unsafe extern "C" fn libusb_bulk_transfer(
 ) -> c_int {
     let d = handle_dev(handle);
     let len = length.max(0) as usize;
-    let mut backend = with(|w| w.backend.take());
-    if let Some(b) = backend.as_mut() {
+    if with(|w| w.backend.is_some()) {
         let buf = std::slice::from_raw_parts_mut(data, len);
-        let (code, n) = b(d, ep, buf, timeout);
-        *transferred = n;
-        with(|w| w.backend = backend);
-        return code;
+        if let Some((code, n)) = via_backend(d, HCall::Bulk { ep, buf, timeout }) {
+            *transferred = n;
+            return code;
+        }
     }
     with(|w| {
         log(w, &[11, d as i64, i64::from(ep), i64::from(length), i64::from(timeout)]);
